@@ -37,6 +37,9 @@ def size_kind(p):
 def classify_iter(iter_node, norm):
     """kind, extra:  'N'/'M'/'d' for range(size); 'N+final' for list(range(N))+[-1];
     'constraints:<grid>[+<grid>]' for loops over stage._constraints[...]; 'range' / 'other'."""
+    sc = getattr(norm, "scope", None)
+    if isinstance(iter_node, ast.Name) and sc is not None:
+        iter_node = sc.list_value(iter_node.id, iter_node) or iter_node
     rb = range_bound(iter_node, norm)
     if rb is not None:
         lo, hi = rb
@@ -79,6 +82,8 @@ def constraint_grids(node):
 def loop_context(scope, norm, node):
     out = []
     for target, it, owner in scope.enclosing_loops(node):
+        if isinstance(it, ast.Name):
+            it = scope.list_value(it.id, it) or it
         kind, extra = classify_iter(it, norm)
         if isinstance(target, ast.Name):
             var = target.id
@@ -94,3 +99,51 @@ def loop_var(ctxs, kind):
         if li.kind == kind and isinstance(li.var, str):
             return li.var
     return None
+
+
+def elementwise_text(scope, node, loop=None):
+    """Text of `node` with the bindings of its innermost enclosing `for` loop made explicit as L[@]:
+        for a, b in zip(A, B): f(a, b)          -> f(A[@], B[@])
+        for i, a in enumerate(A): f(a, B[i])    -> f(A[@], B[@])
+        for i in range(len(A)): f(A[i], B[i])   -> f(A[@], B[@])
+    Returns (text, lists iterated in full) or None when the header is none of these forms."""
+    import copy
+    if loop is None:
+        loops = [o for (_t, _i, o) in scope.enclosing_loops(node) if isinstance(o, ast.For)]
+        if not loops:
+            return None
+        loop = loops[-1]
+    t, it = loop.target, loop.iter
+    names, idx, full = {}, None, []
+    if isinstance(it, ast.Call) and isinstance(it.func, ast.Name) and it.func.id == "zip" and isinstance(t, ast.Tuple) and len(t.elts) == len(it.args) \
+            and all(isinstance(e, ast.Name) for e in t.elts):
+        for e, a in zip(t.elts, it.args):
+            names[e.id] = ast.unparse(a)
+            full.append(ast.unparse(a))
+    elif isinstance(it, ast.Call) and isinstance(it.func, ast.Name) and it.func.id == "enumerate" and len(it.args) == 1 and isinstance(t, ast.Tuple) and len(t.elts) == 2 \
+            and all(isinstance(e, ast.Name) for e in t.elts):
+        idx = t.elts[0].id
+        names[t.elts[1].id] = ast.unparse(it.args[0])
+        full.append(ast.unparse(it.args[0]))
+    elif isinstance(it, ast.Call) and isinstance(it.func, ast.Name) and it.func.id == "range" and len(it.args) == 1 and isinstance(t, ast.Name) \
+            and isinstance(it.args[0], ast.Call) and isinstance(it.args[0].func, ast.Name) and it.args[0].func.id == "len" and len(it.args[0].args) == 1:
+        idx = t.id
+        full.append(ast.unparse(it.args[0].args[0]))
+    elif isinstance(t, ast.Name) and not isinstance(it, ast.Call):
+        names[t.id] = ast.unparse(it)
+        full.append(ast.unparse(it))
+    else:
+        return None
+
+    class T(ast.NodeTransformer):
+        def visit_Subscript(self, n):
+            if idx is not None and isinstance(n.slice, ast.Name) and n.slice.id == idx:
+                return ast.Subscript(value=self.visit(n.value), slice=ast.Name(id="@", ctx=ast.Load()), ctx=ast.Load())
+            return self.generic_visit(n)
+
+        def visit_Name(self, n):
+            if n.id in names:
+                return ast.Subscript(value=ast.parse(names[n.id], mode="eval").body, slice=ast.Name(id="@", ctx=ast.Load()), ctx=ast.Load())
+            return n
+    new = T().visit(copy.deepcopy(node))
+    return ast.unparse(ast.fix_missing_locations(new)), full
